@@ -754,7 +754,8 @@ func init() {
 // This option does not change the shape of parrots (i.e. same ciphers will be offered either way).
 // Must be called before establishing any connections.
 func EnableWeakCiphers() {
-	utlsSupportedCipherSuites = append(cipherSuites, []*cipherSuite{
+	// in addition to what is supported already (the legacy ChaCha20 suites of init())
+	utlsSupportedCipherSuites = append(utlsSupportedCipherSuites[:len(utlsSupportedCipherSuites):len(utlsSupportedCipherSuites)], []*cipherSuite{
 		{DISABLED_TLS_RSA_WITH_AES_256_CBC_SHA256, 32, 32, 16, rsaKA,
 			suiteTLS12, cipherAES, macSHA256, nil},
 
